@@ -74,11 +74,24 @@ func (fst *FSTree) buildFilePath(key string, checkKeyLength bool) (string, error
 	}
 	// build filepath
 	dstPath := filepath.Join(fst.basePath, key) // Join also calls Clean()
-	if !strings.HasPrefix(dstPath, fst.basePath) {
+	if !fst.inScope(dstPath) {
 		return "", fmt.Errorf("fstree: key integrity check failed, compiled path is %s", dstPath)
 	}
 	// return
 	return dstPath, nil
+}
+
+// inScope reports whether the given (clean) path is the base path or lies below it.
+// A plain prefix check is not enough: a sibling directory like "<base>-other" shares the prefix.
+func (fst *FSTree) inScope(path string) bool {
+	if path == fst.basePath {
+		return true
+	}
+	prefix := fst.basePath
+	if !strings.HasSuffix(prefix, string(filepath.Separator)) {
+		prefix += string(filepath.Separator)
+	}
+	return strings.HasPrefix(path, prefix)
 }
 
 // Get returns a database record.
@@ -197,7 +210,7 @@ func (fst *FSTree) queryExecutor(walkRoot string, queryIter *iterator.Iterator, 
 
 		if info.IsDir() {
 			// skip dir if not in scope
-			if !strings.HasPrefix(path, fst.basePath) {
+			if !fst.inScope(path) {
 				return filepath.SkipDir
 			}
 			// continue
@@ -205,7 +218,7 @@ func (fst *FSTree) queryExecutor(walkRoot string, queryIter *iterator.Iterator, 
 		}
 
 		// still in scope?
-		if !strings.HasPrefix(path, fst.basePath) {
+		if !fst.inScope(path) {
 			return nil
 		}
 
